@@ -253,11 +253,11 @@ func (c *connection) onProcess(onConnect OnConnect, onRequest OnRequest) (proces
 		//       So here we need to check connection state again, to avoid connection leak
 		// double check close state
 		if c.status(closing) != 0 && c.lock(processing) {
-			// poller will get the processing lock failed, here help poller do closeCallback
-			// fd must already detach by poller
-			c.closeCallback(false, false)
-			panicked = false
-			return
+			// poller will get the processing lock failed, here help poller do closeCallback.
+			// Go through START instead of running the callbacks right here: data may have been
+			// delivered (and the peer may then have closed) after the loop above last saw an empty
+			// buffer, and it must still be offered to OnRequest before the connection is torn down.
+			goto START
 		}
 		// double check is processable
 		if onRequest != nil && c.Reader().Len() > 0 && c.lock(processing) {
